@@ -32,6 +32,18 @@
 (* computed from the centres alone covers a broad bin that reaches beyond  *)
 (* the window (overlapping broad bins: expected counterexample = design-   *)
 (* level finding, see the report).                                         *)
+(*                                                                         *)
+(* BIN SEARCH (round 4): "any bin layout" includes bins that OVERLAP each  *)
+(* other inside the window -- two instruments observing the same range, a  *)
+(* photometric band on top of spectroscopic bins, the same band measured   *)
+(* twice, and the slivers by which neighbouring bins overlap when their    *)
+(* widths are derived from the centres or converted from wavelength.  The  *)
+(* definition treats every bin on its own.  The mechanism does so too when *)
+(* the binner looks for the native cells of every bin in the WHOLE grid    *)
+(* handed to it (Search = "each", the code); a binner whose search resumes *)
+(* at the last cell the previous bin used (Search = "resume") is right     *)
+(* only if no bin starts before the previous one ended: expected           *)
+(* counterexample on the family "ovl" of MC_LikeGrid.                      *)
 (* Grid.tla (C13) is extended read-only.                                   *)
 (***************************************************************************)
 EXTENDS Grid
@@ -50,6 +62,22 @@ LGChiTerms(g, f, oc, ow2, data, sig) ==
     [j \in 1..Len(oc) |-> LET z == RDiv(RSub(Q(data[j]), LGBinned(g, f, oc[j], ow2[j])), Q(sig[j])) IN RMul(z, z)]
 
 \* ---------------------------------------------------------------- mechanism
+\* the first native cell the binner looks at for bin j when its search resumes at the last cell used by bin j - 1
+RECURSIVE LGResumeAt(_, _, _, _)
+LGResumeAt(g, oc, ow2, j) ==
+    IF j = 1 THEN 1
+    ELSE LET p == LGResumeAt(g, oc, ow2, j - 1)
+             used == {i \in p..Len(g) : GWt(g, i, oc[j - 1], ow2[j - 1]) > 0}
+         IN  IF used = {} THEN p ELSE GSetMax(used)
+\* overlap-weighted mean over the native cells from index `from` on (0 if none overlaps, as LGBinned)
+LGBinnedFrom(g, f, c, w2, from) ==
+    LET w == [i \in 1..Len(g) |-> IF i >= from THEN GWt(g, i, c, w2) ELSE 0]
+        den == GSumTo(w, Len(g))
+    IN  IF den = 0 THEN RZero ELSE Norm(GSumTo([i \in 1..Len(g) |-> w[i] * f[i]], Len(g)), den)
+LGChiTermsBy(g, f, oc, ow2, data, sig, search) ==
+    IF search = "each" THEN LGChiTerms(g, f, oc, ow2, data, sig)
+    ELSE [j \in 1..Len(oc) |-> LET b == LGBinnedFrom(g, f, oc[j], ow2[j], LGResumeAt(g, oc, ow2, j))
+                                   z == RDiv(RSub(Q(data[j]), b), Q(sig[j])) IN RMul(z, z)]
 \* 2 * margin of the clip window, by rule ("max" is the code)
 LGMargin2(oc, rule) ==
     IF rule = "max" THEN GMaxW2(oc)
@@ -62,11 +90,12 @@ LGClipIdx(nat, oc, rule) == LET m2 == LGMargin2(oc, rule) IN {i \in 1..Len(nat) 
 LGLo(nat, oc, rule) == LET I == LGClipIdx(nat, oc, rule) IN IF I = {} THEN 0 ELSE GSetMin(I)
 LGHi(nat, oc, rule) == LET I == LGClipIdx(nat, oc, rule) IN IF I = {} THEN 0 ELSE GSetMax(I)
 \* the chi2 terms as the mechanism computes them; "degenerate" if fewer than two native points survive the clip
-LGMech(nat, f, oc, ow2, data, sig, rule) ==
+LGMechBy(nat, f, oc, ow2, data, sig, rule, search) ==
     LET lo == LGLo(nat, oc, rule)
         hi == LGHi(nat, oc, rule)
     IN  IF lo = 0 \/ hi <= lo THEN [k |-> "degenerate", t |-> <<>>]
-        ELSE [k |-> "num", t |-> LGChiTerms(SubSeq(nat, lo, hi), SubSeq(f, lo, hi), oc, ow2, data, sig)]
+        ELSE [k |-> "num", t |-> LGChiTermsBy(SubSeq(nat, lo, hi), SubSeq(f, lo, hi), oc, ow2, data, sig, search)]
+LGMech(nat, f, oc, ow2, data, sig, rule) == LGMechBy(nat, f, oc, ow2, data, sig, rule, "each")
 
 \* ---------------------------------------------------------------- the clipping contract
 \* native bin i of the full grid overlaps some observation bin
@@ -91,4 +120,7 @@ LGInsideWindow(nat, oc, ow2) ==
 LGGrowth2(ow2)  == 2 * GSetMin({ow2[j] : j \in 1..Len(ow2)}) < GSetMax({ow2[j] : j \in 1..Len(ow2)})   \* widths vary > 2x
 LGHasGap(oc, ow2) == \E j \in 1..(Len(oc) - 1) : 4 * oc[j] + ow2[j] < 4 * oc[j + 1] - ow2[j + 1]
 LGOverlapping(oc, ow2) == \E j \in 1..(Len(oc) - 1) : 4 * oc[j] + ow2[j] > 4 * oc[j + 1] - ow2[j + 1]
+\* how far (quarter units) some bin reaches back over an EARLIER bin (order of the centres); 0 = no two bins overlap
+LGOverlapQ(oc, ow2) == GSetMax({0} \cup {(4 * oc[p[1]] + ow2[p[1]]) - (4 * oc[p[2]] - ow2[p[2]]) :
+                                         p \in {q \in (1..Len(oc)) \X (1..Len(oc)) : q[1] < q[2]}})
 =============================================================================
